@@ -3,8 +3,10 @@ import itertools
 
 from lib import gbool, glist, gopt
 
-HEADER = "From CJ Require Import Common.Base C13.Model C13.Run.\nLocal Open Scope nat_scope.\n"
+HEADER = "From CJ Require Import Common.Base C13.Model C13.ModelS C13.ModelR C13.Run.\nLocal Open Scope nat_scope.\n"
 PKG = "pkg/regserver/regprocessor"
+DRIVERS = {"zz_verif_driver_test.go": "c13/c13_driver_test.go", "zz_verif_real_test.go": "c13/c13_real_driver_test.go"}
+MAINMOD = "cmd/registration-server"
 
 
 def req(v4, v6, e4=False, e6=False, tr=0):
@@ -63,6 +65,342 @@ def sched_case(reqs, m, script, nbad=0, bad=None):
     return {"kind": "sched", "reqs": reqs, "reloads": m, "script": script, "bad": sorted(bad) if bad is not None else list(range(m - nbad, m))}
 
 
+# ------------------------------------------------------------------ the real-selector lane
+def miss(r):
+    return {**r, "miss": True}
+
+
+def real_case(reqs, samepath, script):
+    m = 1 + max([a["i"] for a in script if a["op"] == "reload"], default=-1)
+    return {"kind": "real", "reqs": [dict(r) for r in reqs], "reloads": m, "samepath": samepath, "script": script}
+
+
+def n_pauses_real(r):
+    if r.get("miss"):
+        return 1 if (r["v4"] or r["v6"]) else 0
+    return int(r["v4"]) + int(r["v6"])
+
+
+def real_scripts_exhaustive(kinds, ops):
+    seqs = [[{"op": "req", "i": i}] + [{"op": "rel", "i": i}] * n_pauses_real(k) for i, k in enumerate(kinds)] + [list(ops)]
+    return list(interleavings(seqs))
+
+
+def W(j):
+    return {"op": "write", "i": j}
+
+
+def R(j):
+    return {"op": "reload", "i": j}
+
+
+REWRAP = {"op": "rewrap", "i": 0}
+
+
+def gen_real(ctx):
+    rng = ctx.rng
+    quick = ctx.tier == "quick"
+    out = []
+    # one dual-stack request, the file is replaced and reloaded at every point of the request (both path regimes)
+    for same in (True, False):
+        for sc in real_scripts_exhaustive([DUAL], [W(1), R(0)]):
+            out.append(real_case([DUAL], same, sc))
+    # two requests x one reload; two reloads of one file; a reload of a file that does not parse
+    pools = [([DUAL, V6], [W(1), R(0)]), ([DUAL, V4], [W(1), R(0), R(1)]), ([DUAL], [W(-1), R(0)]), ([miss(DUAL), DUAL], [W(1), R(0)]),
+             ([DUAL, DUAL], [W(1), R(0)])]
+    for kinds, ops in pools:
+        allsc = real_scripts_exhaustive(kinds, ops)
+        sel = allsc if not quick or len(allsc) <= 24 else rng.sample(allsc, 24)
+        for sc in sel:
+            out.append(real_case(kinds, rng.random() < 0.6, sc))
+    # several rounds: every round starts on the selector the real ReloadSubnets left installed
+    for _ in range(40 if quick else 400):
+        nround = rng.choice([2, 2, 3])
+        kinds, script, nrel, nset = [], [], 0, 0
+        tame = rng.random() < 0.7
+        for rd in range(nround):
+            idx = []
+            for _ in range(rng.choice([1, 1, 2])):
+                kinds.append(dict(rng.choice([DUAL, DUAL, DUAL, V4, V6, miss(DUAL), miss(V6)] if tame else [DUAL, DUAL, V4, V6])))
+                idx.append(len(kinds) - 1)
+            ops = []
+            if tame:
+                if rng.random() < 0.85:
+                    nset += 1
+                    ops.append(W(nset if rng.random() < 0.85 else -1))
+                for _ in range(rng.choice([1, 1, 1, 2, 0])):
+                    ops.append(R(nrel))
+                    nrel += 1
+            else:
+                for _ in range(rng.choice([2, 2, 3])):
+                    nset += 1
+                    ops += [W(nset), R(nrel)]
+                    nrel += 1
+            seqs = [[{"op": "req", "i": i}] + [{"op": "rel", "i": i}] * n_pauses_real(kinds[i]) for i in idx] + [ops]
+            script += random_merge(rng, seqs)
+            if rd + 1 < nround:
+                script.append(dict(REWRAP))
+        out.append(real_case(kinds, rng.random() < 0.6, script))
+    return out
+
+
+def real_static(c):
+    """what the script fixes: per reload the file it reads (path, set / None = does not parse), the writes, the rounds"""
+    same = c["samepath"]
+    cur = (0, 0)            # (path, set) ; set None: unparsable
+    nw = 0
+    writes, reloads = [], {}
+    tame = True
+    seen_reload_in_round, writes_in_round = False, 0
+    for a in c["script"]:
+        if a["op"] == "write":
+            nw += 1
+            path = 0 if same else nw
+            cur = (path, a["i"] if a["i"] >= 0 else None)
+            writes.append(cur)
+            writes_in_round += 1
+            if seen_reload_in_round or writes_in_round > 1:
+                tame = False
+        elif a["op"] == "reload":
+            reloads.setdefault(a["i"], cur)
+            seen_reload_in_round = True
+        elif a["op"] == "rewrap":
+            seen_reload_in_round, writes_in_round = False, 0
+    launched_req = {a["i"] for a in c["script"] if a["op"] == "req"}
+    if len(launched_req) != len(c["reqs"]) or len(reloads) != c["reloads"]:
+        tame = False
+    return {"writes": writes, "reloads": [reloads.get(j, cur) for j in range(c["reloads"])], "tame": tame}
+
+
+def real_term(c, r):
+    st = real_static(c)
+    k, m = len(c["reqs"]), c["reloads"]
+    if not st["tame"] or r["unsettled"]:
+        return None
+    acts = []
+    nw = 0
+    for a in c["script"]:
+        if a["op"] == "req":
+            acts.append("AReq %d" % a["i"])
+        elif a["op"] == "rel":
+            acts.append("ARel %d" % a["i"])
+        elif a["op"] == "reload":
+            acts.append("ALaunch %d" % (k + a["i"]))
+        elif a["op"] == "write":
+            acts.append("ALaunch %d" % (k + m + nw))
+            nw += 1
+        else:
+            acts.append("ARewrap")
+    reqs = glist(c["reqs"], lambda q: "(mkReq %s %s %s %s)" % (gbool(q["v4"]), gbool(q["v6"]), gbool(bool(q.get("miss"))), gbool(bool(q.get("miss")))))
+    rel = glist(st["reloads"], lambda f: "None" if f[1] is None else "(Some %d)" % f[0])
+    wr = glist(st["writes"], lambda f: "(%d, %d)" % ((999, 0) if f[1] is None else f))
+    return "(CReal %s %s %s %s %s %s %d)" % (reqs, rel, wr, glist(acts), glist(r["reqs"] or [], gobs),
+                                            glist([x for x in (r["round_init"] or [])], str), max(0, r["final_ver"]))
+
+
+def real_relational_term(c, r):
+    if any(q.get("miss") for q in c["reqs"]):
+        return ""
+    nset = max([a["i"] for a in c["script"] if a["op"] == "write"], default=0)
+    nfail = min(r["reload_errs"], c["reloads"])
+    m = c["reloads"] - nfail
+    if m > 0 and nset == 0:
+        return ""           # reloads of the unchanged file
+    return "(CSched %s %d %d %d %s %s %d %d %d)" % (
+        glist(c["reqs"], lambda q: greq({**q, "err4": False, "err6": False})), m, nfail, max(nset, m), gbool(r["completed"]),
+        glist(r["reqs"] or [], gobs), sum(1 for x in (r["reloads_done"] or []) if x), r["reload_errs"], max(0, r["final_ver"]))
+
+
+def oracle_real(ctx, c, r):
+    regime = "samepath" if c["samepath"] else "newpath"
+    if r.get("panic"):
+        ctx.fail("panic/real", "real-selector lane: " + r["panic"], c)
+        return
+    if not r["completed"]:
+        ctx.fail("stall/real", "requests and reloads on the real selector did not all complete within the bound (%s); blocked goroutines:\n%s"
+                 % (describe(c), (r["dump"] or "")[:3000]), {**c, "observed": {k: v for k, v in r.items() if k != "dump"}, "goroutines": r["dump"]})
+        return
+    if r["final"] != 0:
+        ctx.fail("lock-leak/real", "selector mutex reader count is %d after everything returned (%s)" % (r["final"], describe(c)), c)
+    st = real_static(c)
+    good_writes = [(idx, a["i"]) for idx, a in enumerate(c["script"]) if a["op"] == "write" and a["i"] >= 0]
+    for i, o in enumerate(r["reqs"]):
+        q = c["reqs"][i]
+        if not o["done"]:
+            ctx.fail("stall/real", "request %d never returned (%s)" % (i, describe(c)), c)
+            continue
+        if q.get("miss"):
+            continue
+        if o["err"]:
+            ctx.fail("request-failed/real", "request %d (its generation is in every subnets file) returned an error (%s)" % (i, describe(c)),
+                     {**c, "observed": r["reqs"]})
+            continue
+        if o["v4ver"] >= 0 and o["v6ver"] >= 0 and o["v4ver"] != o["v6ver"]:
+            ctx.fail("mixed/real/" + regime,
+                     "request %d got its IPv4 phantom from subnet set %d and its IPv6 phantom from set %d: the subnets file was "
+                     "replaced (%s) and reloaded through the real ReloadSubnets between the two selections (%s); selections (request, v6, selector object, set): %s"
+                     % (i, o["v4ver"], o["v6ver"], "at the same path" if c["samepath"] else "at a new path", describe(c), r["sel_log"]),
+                     {**c, "observed": r["reqs"], "sel_log": r["sel_log"]})
+            continue
+        allowed = {(r["round_init"] or [0])[min(o["round"], len(r["round_init"]) - 1)] if r["round_init"] else 0}
+        for idx, x in good_writes:
+            if o["done_at"] < 0 or idx < o["done_at"]:
+                allowed.add(x)
+        for v in (o["v4ver"], o["v6ver"]):
+            if v >= 0 and v not in allowed:
+                ctx.fail("foreign-set/real", "request %d was answered from subnet set %d, which was neither installed when its round began nor "
+                         "published before it finished (allowed %s; %s)" % (i, v, sorted(allowed), describe(c)), {**c, "observed": r["reqs"]})
+    if not all(r["reloads_done"] or [True]):
+        ctx.fail("reload/real", "a reload did not complete (%s)" % describe(c), c)
+    if st["tame"]:
+        for j, f in enumerate(st["reloads"]):
+            if (f[1] is None) != bool(r["reload_errl"][j]):
+                ctx.fail("reload/real", "reload %d %s although its subnets file %s (%s)"
+                         % (j, "failed" if r["reload_errl"][j] else "succeeded", "does not parse" if f[1] is None else "is well-formed", describe(c)), c)
+
+
+def oracle_realstress(ctx, c, r, out):
+    regime = "samepath" if c["samepath"] else "newpath"
+    if not r["completed"]:
+        ctx.fail("stall/realstress", "free-running requests x reloads on the real selector did not complete; blocked goroutines:\n%s" % (r["dump"] or "")[:3000],
+                 {**c, "goroutines": r["dump"]})
+        return
+    if r["mixed"]:
+        ctx.fail("mixed/realstress/" + regime, "%d of %d free-running requests took their IPv4 and IPv6 phantoms from two different subnet sets "
+                 "(%d reloads while the file was being replaced %s)" % (r["mixed"], r["nreq"], r["nrel"], "at one path" if c["samepath"] else "at new paths"), c)
+    if r["reload_errs"]:
+        ctx.fail("reload/realstress", "%d of %d reloads failed although every published file is well-formed" % (r["reload_errs"], r["nrel"]), c)
+    if r["req_errs"]:
+        ctx.fail("request-failed/realstress", "%d of %d requests returned an error" % (r["req_errs"], r["nreq"]), c)
+    if r["final"] != 0:
+        ctx.fail("lock-leak/realstress", "selector mutex reader count is %d after everything returned" % r["final"], c)
+
+
+# ------------------------------------------------------------------ the reload as main.go performs it
+def gen_main(ctx, variant=0):
+    rng = ctx.rng
+    quick = ctx.tier == "quick"
+    cc, setid, gens = 2, 1, [1, 2]
+    case = {"init_cc": cc, "init_set": setid, "init_gens": list(gens), "dns": False, "rounds": []}
+    fam = [(True, True), (True, True), (True, False), (False, True)]
+
+    def probes(n):
+        ps = [{"gen": 0, "v4": True, "v6": True}, {"gen": cc - 1, "v4": True, "v6": True}, {"gen": cc, "v4": True, "v6": True}]
+        for _ in range(n):
+            v4, v6 = rng.choice(fam)
+            ps.append({"gen": rng.choice([0] + gens), "v4": v4, "v6": v6})
+        return ps
+
+    plan = ["new-gen/both", "subnets-only/sub", "cc-bad/cc", "sub-bad/sub", "new-gen/sub", "jump/both", "new-gen/cc", "new-gen/none"]
+    if variant:
+        rng.shuffle(plan)
+        plan = ["new-gen/sub"] + plan
+    for item in plan:
+        what, hold = item.split("/")
+        rd = {"hold_cc": hold in ("both", "cc"), "hold_sub": hold in ("both", "sub"), "probes": probes(rng.randrange(1, 4)), "stress": 0, "stress_n": 0,
+              "cc_bad": False, "sub_bad": False, "what": item}
+        if what in ("new-gen", "jump"):
+            ncc = cc + (1 if what == "new-gen" else rng.randrange(2, 4))
+            setid += 1
+            rd.update(cc=ncc, set=setid, gens=gens + list(range(cc + 1, ncc + 1)))
+            cc, gens = ncc, rd["gens"]
+        elif what == "subnets-only":
+            setid += 1
+            rd.update(cc=cc, set=setid, gens=list(gens))
+        elif what == "cc-bad":
+            rd.update(cc=cc + 1, cc_bad=True, set=setid + 50, gens=gens + [cc + 1])
+        elif what == "sub-bad":
+            rd.update(cc=cc, sub_bad=True, set=setid + 60, gens=list(gens))
+        case["rounds"].append(rd)
+    # free-running clients while new generations are published one after the other (no holds)
+    for _ in range(25 if quick else 120):
+        ps = [{"gen": g, "v4": True, "v6": True} for g in (0, cc - 1, cc)] + [{"gen": rng.choice(gens), "v4": rng.random() < 0.8, "v6": True}]
+        ncc = cc + 1
+        setid += 1
+        if setid > 250:
+            break
+        rd = {"cc": ncc, "set": setid, "gens": gens + [ncc], "hold_cc": False, "hold_sub": False, "cc_bad": False, "sub_bad": False,
+              "probes": ps, "stress": 4, "stress_n": 100000, "what": "new-gen/stress"}
+        cc, gens = ncc, rd["gens"]
+        case["rounds"].append(rd)
+    return case
+
+
+def main_states(case):
+    """the registrar's state (set, gens, api) before and after every round, by the property's reading of a reload"""
+    st = (case["init_set"], list(case["init_gens"]), case["init_cc"])
+    out = []
+    for rd in case["rounds"]:
+        before = st
+        if not rd["cc_bad"]:
+            s, g, a = st
+            if not rd["sub_bad"]:
+                s, g = rd["set"], list(rd["gens"])
+            st = (s, g, rd["cc"])
+        out.append((before, st))
+    return out
+
+
+def oracle_main(ctx, case, res):
+    if not res.get("started"):
+        ctx.broken("driver", "the registration server's main() did not come up in the test process: %s" % res.get("err"))
+        return
+    slim = lambda rd: {k: v for k, v in rd.items()}
+    for n, (rd, ro, (before, after)) in enumerate(zip(case["rounds"], res["rounds"], main_states(case))):
+        what = rd["what"]
+        ctx.count(("main", n, repr(rd)), nontrivial=True, kind="main/" + ("stress" if rd["stress"] else "held" if (rd["hold_cc"] or rd["hold_sub"]) else "plain"))
+        sets_ok = {before[0], after[0]}
+        where_obs = [("at-cc", o) for o in ro["at_cc"] or []] + [("at-sub", o) for o in ro["at_sub"] or []] + \
+                    [("after", o) for o in ro["after"] or []] + [("after", ro["final"])] + [("stress", o) for o in ro["bad"] or []]
+        ctxcase = {"kind": "main", "round": n, "round_spec": slim(rd), "state_before": before, "state_after": after,
+                   "init": {k: case[k] for k in ("init_cc", "init_set", "init_gens")}, "rounds_before": [r["what"] for r in case["rounds"][:n]]}
+        for where, o in where_obs:
+            desc = "client generation %d (%s) %s of reload %d (%s: ClientConf generation %s, subnet set %d with generations %s; before: set %d, generations %s, ClientConf %d)" % (
+                o["gen"], "dual stack" if o["v4"] and o["v6"] else "v4" if o["v4"] else "v6",
+                {"at-cc": "while the handler was reading the ClientConf file", "at-sub": "while ReloadSubnets was reading the subnets file",
+                 "after": "after", "stress": "sent free-running during"}[where], n, what, "unparsable" if rd["cc_bad"] else rd["cc"], rd["set"], rd["gens"],
+                before[0], before[1], before[2])
+            if o["status"] != 200:
+                ctx.fail("unanswered/main/%s" % where, "a bidirectional API registration was not answered (HTTP %s%s): %s"
+                         % (o["status"] or "none", " " + o["err"] if o["err"] else "", desc), {**ctxcase, "observed": o, "where": where})
+                continue
+            if o["v4"] and o["v6"] and o["v4set"] != o["v6set"]:
+                ctx.fail("mixed/main/%s" % where, "IPv4 phantom from subnet set %d, IPv6 phantom from set %d: %s" % (o["v4set"], o["v6set"], desc),
+                         {**ctxcase, "observed": o, "where": where})
+            used = [x for x in (o["v4set"] if o["v4"] else None, o["v6set"] if o["v6"] else None) if x is not None]
+            if any(x not in sets_ok for x in used):
+                ctx.fail("foreign-set/main/%s" % where, "answered from subnet set %s, neither the old (%d) nor the new (%d) one: %s" % (used, before[0], after[0], desc),
+                         {**ctxcase, "observed": o, "where": where})
+            gg = [x for x in (o["v4gen"] if o["v4"] else None, o["v6gen"] if o["v6"] else None) if x is not None]
+            if len(set(gg)) > 1:
+                ctx.fail("mixed/main/%s" % where, "IPv4 and IPv6 phantoms selected for two different generations %s: %s" % (gg, desc), {**ctxcase, "observed": o, "where": where})
+        want_opens = (["cc"] if rd["hold_cc"] else []) + (["sub"] if rd["hold_sub"] and not rd["cc_bad"] else [])
+        if (ro["opens"] or []) != want_opens:
+            ctx.fail("reload/main/files-read", "on SIGHUP the handler opened %s, expected %s in this order (reload %d, %s)" % (ro["opens"], want_opens, n, what), ctxcase)
+        if not ro["settled"]:
+            ctx.fail("reload-lost/main", "reload %d (%s) did not take effect within the bound: a generation-0 dual-stack registration is answered with %s, expected "
+                     "set %d and ClientConf generation %d" % (n, what, ro["final"], after[0], after[2]), {**ctxcase, "observed": ro["final"]})
+        if ro["nbad"]:
+            ctx.cov.setdefault("main_stress_bad", 0)
+            ctx.cov["main_stress_bad"] += ro["nbad"]
+
+
+def gmobs(o):
+    on = lambda cond, v: gopt(v if cond and v is not None and v >= 0 else None, str)
+    return "(%d, %s, %s, %s, %s, (%s, %s), (%s, %s), %s)" % (
+        o["gen"], gbool(o["v4"]), gbool(o["v6"]), gbool(o["late"]), gbool(o["status"] == 200),
+        on(True, o["v4set"]), on(True, o["v6set"]), on(True, o["v4gen"]), on(True, o["v6gen"]), on(True, o["cc"]))
+
+
+def main_term(case, res):
+    rounds = []
+    for rd, ro in zip(case["rounds"], res["rounds"]):
+        pub = "(mkP %s %d %s %s)" % ("None" if rd["cc_bad"] else "(Some %d)" % rd["cc"], rd["set"], glist(rd["gens"], str), gbool(not rd["sub_bad"]))
+        rounds.append("(%s, %s, %s, %s)" % (pub, glist(ro["at_cc"] or [], gmobs), glist(ro["at_sub"] or [], gmobs),
+                                        glist((ro["after"] or []) + [ro["final"]], gmobs)))
+    return "(CMain (mkR %d %s %d %d) %s)" % (case["init_set"], glist(case["init_gens"], str), case["init_cc"], case["init_cc"], glist(rounds))
+
+
 def gen_cases(ctx):
     rng = ctx.rng
     quick = ctx.tier == "quick"
@@ -70,7 +408,7 @@ def gen_cases(ctx):
     # replayed cases first
     for f in (ctx.replay or {}).get("failures", []) + (ctx.replay or {}).get("theorem_or_correspondence", []):
         c = f.get("case")
-        if isinstance(c, dict) and c.get("kind") in ("depth", "sched", "stress"):
+        if isinstance(c, dict) and c.get("kind") in ("depth", "sched", "stress", "real", "realstress"):
             cases.append(c)
     # the deadlock witness of the model (coq/C13/Examples.v old_trace_deadlocks) on the real code:
     # request selects v4, reload announces, request goes on to the v6 selection
@@ -138,6 +476,11 @@ def gen_cases(ctx):
     for k, m, it in ([(4, 2, 300)] if quick else [(4, 2, 2000), (8, 3, 1500), (2, 1, 3000)]):
         cases.append({"kind": "stress", "reqs": [dict(rng.choice([DUAL, DUAL, V4, V6])) for _ in range(k)], "reloads": m,
                       "iters": it, "bound_ms": 20000})
+    # the real selector: scripted rounds, then free-running k requests x m reloads while the file is being replaced
+    cases += gen_real(ctx)
+    for same, k, m, it in ([(True, 4, 2, 1500), (False, 3, 2, 800)] if quick else [(True, 4, 2, 6000), (False, 4, 3, 4000), (True, 8, 3, 3000), (True, 2, 1, 6000)]):
+        cases.append({"kind": "realstress", "samepath": same, "reqs": [dict(rng.choice([DUAL, DUAL, DUAL, V4, V6])) for _ in range(k)], "reloads": m,
+                      "iters": it, "bound_ms": 30000})
     return cases
 
 
@@ -155,6 +498,13 @@ MOPS = {"RLock": "MRLock", "RUnlock": "MRUnlock", "Lock": "MLock", "Unlock": "MU
 
 
 def term(c, r):
+    if c["kind"] == "real":
+        if not r["completed"] or r.get("panic"):
+            return ""
+        t = real_term(c, r)
+        return t if t is not None else real_relational_term(c, r)
+    if c["kind"] == "realstress":
+        return ""
     if c["kind"] == "rwm":
         if not r["completed"]:
             return ""        # unstable timing: not compared
@@ -174,6 +524,12 @@ def term(c, r):
 
 
 def describe(c):
+    if c["kind"] == "real":
+        return "real selector, file replaced %s, k=%d m=%d script=%s" % (
+            "at one path" if c["samepath"] else "at new paths", len(c["reqs"]), c["reloads"],
+            " ".join(a["op"] if a["op"] == "rewrap" else "%s%d" % (a["op"], a["i"]) for a in c["script"]))
+    if c["kind"] == "realstress":
+        return "realstress k=%d m=%d iters=%d %s" % (len(c["reqs"]), c["reloads"], c["iters"], "same path" if c["samepath"] else "new paths")
     if c["kind"] == "sched":
         return "k=%d m=%d bad=%s script=%s" % (len(c["reqs"]), c["reloads"], c.get("bad") or [],
                                         " ".join("%s%d" % (a["op"], a["i"]) for a in c["script"]))
@@ -185,6 +541,10 @@ def describe(c):
 def oracle(ctx, c, r):
     """the property's own statement on the implementation's observables"""
     kind = c["kind"]
+    if kind == "real":
+        return oracle_real(ctx, c, r)
+    if kind == "realstress":
+        return oracle_realstress(ctx, c, r, "")
     if kind == "rwm":
         return      # no property of conjure is involved: this only validates the model of sync.RWMutex
     if not r["completed"]:
@@ -215,33 +575,49 @@ def oracle(ctx, c, r):
             ctx.fail("reload/stress", "%d reloads failed" % r["reload_errs"], c)
 
 
+def run_main_lane(ctx, variant):
+    """the real main() of cmd/registration-server with SIGHUP reloads held at the files it reads (one process per case)"""
+    case = gen_main(ctx, variant)
+    rc, out, res = ctx.go_inpkg(MAINMOD, ".", {"zz_verif_driver_test.go": "c13/c13_main_driver_test.go"}, "^TestVerifC13Main$", [case], timeout=300)
+    if not res or not isinstance(res, list) or len(res[0].get("rounds") or []) != len(case["rounds"]):
+        ctx.broken("driver", "the registration-server driver (real main() in the test process) did not produce results: %s" % out[-1500:])
+        return None, None
+    return case, res[0]
+
+
 def run(ctx):
     ctx.assumptions += [
         "sync.RWMutex behaves as modelled in coq/C13/Model.v (writer preference: a pending Lock blocks new RLocks; Lock = announce + enter); the model admits every behaviour Go has",
         "the code between lock operations does not block on anything else (the selections are in-memory computations)",
         "the Go in-package driver (fake ipSelector as scheduling point, reader count read by reflection), the case generator and the emitter are trusted",
+        "main.go model (coq/C13/ModelR.v): each handler step and each of a request's two steps (front end, selection) is atomic; "
+        "publication hypothesis chain_ok: a subnets file keeps the generations of its predecessor and contains the generation of the ClientConf published with it",
+        "the Go memory model: data-race freedom of the selector swap is tested with -race (free-running real-selector stress), not proved",
     ]
     ctx.cov["trusted_base"] = [
         "Coq 8.16.1 kernel (coqc; coqchk in the thorough tier); vm_compute for evaluating the model on cases and in Examples.v; no native_compute",
         "no axioms: every theorem prints 'Closed under the global context'",
-        "hand-written model coq/C13/Model.v (RWMutex LTS + lock traces of processBdReq / ReloadSubnets), tied to the code by the observed lock-depth trace of every request kind and by forced interleavings at the selector call sites",
+        "hand-written models: coq/C13/Model.v (RWMutex LTS + lock traces of processBdReq / ReloadSubnets), ModelS.v (the selector as a heap object: load / install / read), "
+        "ModelR.v (the step sequence of main.go's SIGHUP handler and the two steps of a request); tied to the code by the observed lock-depth trace of every request kind, "
+        "forced interleavings at the selector call sites (fake selector and the REAL phantoms selector loaded by the REAL ReloadSubnets), and the real main() held at the files it reads",
     ]
     ctx.cov["rule"] = ("depth: one per request kind (v4,v6,err4,err6,transport known/unknown); sched: every interleaving of "
                        "request launch / v4-selection / v6-selection and reload launch for the listed small (k,m), plus random "
-                       "k<=3,m<=2; stress: unscripted. A case is non-trivial if it is hash-distinct (all of them exercise the lock).")
+                       "k<=3,m<=2; real: the same scheduling points on the real selector with the subnets file replaced (same path / new path) "
+                       "and reloaded by the real ReloadSubnets, in rounds; stress / realstress: unscripted; main: rounds of SIGHUP reloads of the real "
+                       "main() held at the ClientConf / subnets file, registrations in every gap. A case is non-trivial if it is hash-distinct.")
     ctx.coq_props()
     cases = gen_cases(ctx)
     results = []
     # the stress cases go last (and under -race in the thorough tier)
-    plain = [c for c in cases if c["kind"] != "stress"]
-    stress = [c for c in cases if c["kind"] == "stress"]
-    rc, out, res = ctx.go_inpkg(".", PKG, {"zz_verif_driver_test.go": "c13/c13_driver_test.go"}, "^TestVerifC13$", plain, timeout=900)
+    plain = [c for c in cases if c["kind"] not in ("stress", "realstress")]
+    stress = [c for c in cases if c["kind"] in ("stress", "realstress")]
+    rc, out, res = ctx.go_inpkg(".", PKG, DRIVERS, "^TestVerifC13$", plain, timeout=900)
     if res is None or len(res) != len(plain):
         ctx.broken("driver", "Go driver did not produce results: %s" % out[-1500:])
         return
     results += res
-    rc, out, res2 = ctx.go_inpkg(".", PKG, {"zz_verif_driver_test.go": "c13/c13_driver_test.go"}, "^TestVerifC13$", stress,
-                                 race=(ctx.tier == "thorough"), timeout=900)
+    rc, out, res2 = ctx.go_inpkg(".", PKG, DRIVERS, "^TestVerifC13$", stress, race=(ctx.tier == "thorough"), timeout=900)
     if res2 is None or len(res2) != len(stress):
         ctx.broken("driver", "Go stress driver did not produce results: %s" % out[-1500:])
         return
@@ -259,6 +635,13 @@ def run(ctx):
             sub = "sched/k%d/m%d" % (len(c["reqs"]), c["reloads"])
         elif kind == "rwm":
             sub = "rwm/" + ("unstable" if not r["completed"] else "blocking" if any(any(o["blocked"]) for o in r["mobs"] or []) else "free")
+        elif kind == "real":
+            exact = real_static(c)["tame"] and not r["unsettled"] and r["completed"]
+            sub = "real/%s/%s" % ("exact" if exact else "unsettled" if r["unsettled"] else "relational", "samepath" if c["samepath"] else "newpath")
+            if len(r["round_init"] or []) > 1:
+                ctx.count((kind, "rounds", repr(c)), nontrivial=True, kind="real/multi-round")
+        elif kind == "realstress":
+            sub = "realstress/" + ("samepath" if c["samepath"] else "newpath")
         ctx.count((kind, repr(c)), nontrivial=True, kind=sub)
         oracle(ctx, c, r)
         t = term(c, r)
@@ -267,20 +650,65 @@ def run(ctx):
         if t is not None:
             terms.append(t)
             tidx.append(i)
-        elif kind != "stress":
+        elif kind not in ("stress", "realstress"):
             ctx.broken("correspondence", "observation outside the model's domain (%s)" % describe(c), c)
+    if ctx.tier != "thorough":
+        # the race detector on the free-running real-selector lane (quick tier: this lane only)
+        rs = [dict(c, iters=max(200, c["iters"] // 4)) for c in stress if c["kind"] == "realstress"]
+        rc, out3, res3 = ctx.go_inpkg(".", PKG, DRIVERS, "^(TestVerifC13)$", rs, race=True, timeout=900)
+        if res3 is None or len(res3) != len(rs):
+            ctx.broken("driver", "Go stress driver under -race did not produce results: %s" % out3[-1500:])
+        else:
+            for c, r in zip(rs, res3):
+                ctx.count(("race", repr(c)), nontrivial=True, kind="realstress/race")
+                oracle_realstress(ctx, c, r, out3)
+            if "DATA RACE" in out3:
+                ctx.fail("race/realstress", "the race detector reported a data race between registrations and reloads on the real selector "
+                         "(the selector a request reads under the read lock is written without the write lock):\n" + out3[out3.find("DATA RACE") - 40:][:3500], rs[0])
     ctx.sample({"case": cases[0], "observed": {k: v for k, v in results[0].items() if k != "dump"}})
     ctx.sample({"case": cases[1], "observed": {k: v for k, v in results[1].items() if k != "dump"}})
     ctx.sample({"case": cases[-1], "observed": {k: v for k, v in results[-1].items() if k != "dump"}})
-    ctx.require_kinds(["depth/dual", "depth/single", "depth/none", "sched/k1/m1", "sched/k1/m2", "sched/k2/m1", "sched/k2/m2", "sched/k3/m2", "stress", "rwm/blocking", "rwm/free"])
+    firstreal = next(i for i, c in enumerate(cases) if c["kind"] == "real")
+    ctx.sample({"case": cases[firstreal + 3], "observed": {k: v for k, v in results[firstreal + 3].items() if k != "dump"}})
     h = ctx.cov["histogram"]
     if h.get("rwm/unstable", 0) * 5 > h.get("rwm/unstable", 0) + h.get("rwm/blocking", 0) + h.get("rwm/free", 0):
         ctx.broken("driver", "more than a fifth of the sync.RWMutex scripts had no two agreeing executions")
-    mm = ctx.coq_mismatches("lock", HEADER, terms, "chk", shard=400, need_vo=["C13/Run.vo", "C13/Examples.vo"])
+    nreal = sum(v for k, v in h.items() if k.startswith("real/") and k != "real/multi-round")
+    nuns = sum(v for k, v in h.items() if k.startswith("real/unsettled"))
+    if nuns * 5 > nreal:
+        ctx.broken("driver", "more than a fifth of the real-selector scripts did not reach a stable state after some action (%d of %d)" % (nuns, nreal))
+    ctx.cov["real_lane"] = {"scripts": nreal, "unsettled": nuns, "exact": sum(v for k, v in h.items() if k.startswith("real/exact"))}
+
+    # the reload as main.go performs it
+    mterms = []
+    for variant in ([0] if ctx.tier == "quick" else [0, 1, 2]):
+        mcase, mres = run_main_lane(ctx, variant)
+        if mcase is None:
+            continue
+        oracle_main(ctx, mcase, mres)
+        mterms.append((main_term(mcase, mres), mcase, mres))
+        if variant == 0:
+            ctx.sample({"case": {**mcase, "rounds": mcase["rounds"][:2]}, "observed": {"init": mres["init"], "rounds": mres["rounds"][:2]}})
+        ctx.cov.setdefault("main_lane", []).append({"rounds": len(mcase["rounds"]), "stress_requests": sum(ro["nstress"] for ro in mres["rounds"]),
+                                                   "late_answers": sum(1 for ro in mres["rounds"] for o in (ro["at_cc"] or []) + (ro["at_sub"] or []) if o["late"])})
+
+    ctx.require_kinds(["depth/dual", "depth/single", "depth/none", "sched/k1/m1", "sched/k1/m2", "sched/k2/m1", "sched/k2/m2", "sched/k3/m2", "stress",
+                       "rwm/blocking", "rwm/free", "real/exact/samepath", "real/exact/newpath", "real/relational/samepath", "real/multi-round",
+                       "realstress/samepath", "realstress/newpath", "main/held", "main/stress"]
+                      + (["realstress/race"] if ctx.tier != "thorough" else []))
+    mm = ctx.coq_mismatches("lock", HEADER, terms, "chk", shard=400, need_vo=["C13/Run.vo", "C13/Examples.vo", "C13/ExamplesS.vo", "C13/ExamplesR.vo"])
     if mm:
         ctx.cov["mismatches"] += len(mm)
         i = tidx[mm[0]]
-        ctx.broken("correspondence", "the model (coq/C13: lock trace of the request kinds / allowed outcomes of a schedule) and the "
-                   "implementation disagree on %d case(s); first: %s observed %s" % (
+        ctx.broken("correspondence", "the model (coq/C13: lock trace of the request kinds / allowed outcomes of a schedule / the selector-object model replayed "
+                   "on the script) and the implementation disagree on %d case(s); first: %s observed %s" % (
                        len(mm), describe(cases[i]), {k: v for k, v in results[i].items() if k != "dump"}),
                    {**cases[i], "observed": {k: v for k, v in results[i].items() if k != "dump"}})
+    if mterms:
+        mm2 = ctx.coq_mismatches("main", HEADER, [t for t, _, _ in mterms], "chk", shard=4, need_vo=["C13/Run.vo"])
+        if mm2:
+            ctx.cov["mismatches"] += len(mm2)
+            _, mcase, mres = mterms[mm2[0]]
+            ctx.broken("correspondence", "the reload-sequence model (coq/C13/ModelR.v: parse, ReloadSubnets, NewClientConf, UpdateLatestCCGen, in this order) and the real "
+                       "SIGHUP handler of main.go disagree on what registrations are answered with while the handler is held / after the reload",
+                       {"kind": "main", "rounds": [r["what"] for r in mcase["rounds"]]})
